@@ -9,7 +9,7 @@
      functions/prevnext.py   PREVIOUS / NEXT / RANK via _sorted_lookup                             (eval_query)
    and the linear-scan definitions the property compares them with (the scan_ definitions).
    Definitions only; lemmas are in Proofs/Bisect_proofs.v.  Tied to the code by harness/props/c14.py. *)
-From Coq Require Import ZArith QArith List Bool.
+From Coq Require Import ZArith QArith List Bool Sorted.
 Import ListNotations.
 Open Scope Z_scope.
 
@@ -435,6 +435,31 @@ Definition res_eqb (a b : res) : bool :=
   | _, _ => false
   end.
 
+(* ------------------------------------------------------------------------------------------------ *)
+(* Vocabulary of the theorems.                                                                       *)
+
+(* the domain: every record has one value per sort column, and the sort values of the records are
+   mutually comparable column by column *)
+Definition dom_ok (spec : list bool) (rows : list row) : Prop :=
+  (forall r, In r rows -> length (rvals r) = length spec) /\
+  (forall a b, In a rows -> In b rows -> vals_comparable (rvals a) (rvals b) = true).
+
+(* the probe values are comparable with the sort values of the records, column by column *)
+Definition probe_ok (rows : list row) (vals : list val) : Prop :=
+  forall a, In a rows -> vals_comparable (rvals a) vals = true.
+
+(* the list is in SortKey order: no record's key is strictly before the key of an earlier record *)
+Definition sorted_rows (spec : list bool) (l : list row) : Prop :=
+  StronglySorted (fun a b => key_lt spec (row_key b) (row_key a) = false) l.
+
+(* id of the last / first record of a list, 0 (the empty record) for the empty list *)
+Definition last_id (l : list row) : Z := match rev l with r :: _ => rid r | [] => 0 end.
+Definition head_id (l : list row) : Z := match l with r :: _ => rid r | [] => 0 end.
+
+(* (column id, ascending?) for each entry of the effective sort spec *)
+Definition sort_cols (order_by : list (list Z)) (sort_by : list Z) (hm : bool) : list (colid * bool) :=
+  map split_col_spec (make_sort_spec order_by sort_by hm).
+
 (* One formula cell of the correspondence check. *)
 Inductive query : Type :=
 | QFind (o : op) (gkey : list (colid * val)) (order_by : list (list Z)) (sort_by : list Z) (probe : list val)
@@ -446,12 +471,15 @@ Definition eval_query (tbl : list trow) (hm : bool) (q : query) : res :=
   | QPN o group_by order_by rec_id => eval_prevnext o tbl hm group_by order_by rec_id
   end.
 
-(* the hypotheses of the theorems, evaluated on a whole table: sort values of all rows and the probes are
-   mutually comparable column by column *)
+(* the hypotheses dom_ok / probe_ok of the theorems as a boolean (see rset_okb_spec) *)
+Definition rset_okb (spec : list bool) (rows : list row) (probes : list (list val)) : bool :=
+  forallb (fun r => Nat.eqb (length (rvals r)) (length spec)) rows && all_comparable (probes ++ map rvals rows).
+
+(* ... evaluated on a whole table: sort values of all rows and the probes are mutually comparable column by
+   column, and every record has one value per sort column *)
 Definition domain_okb (tbl : list trow) (hm : bool) (order_by : list (list Z)) (sort_by : list Z)
            (probes : list (list val)) : bool :=
-  let sspec := map split_col_spec (make_sort_spec order_by sort_by hm) in
-  match rows_of tbl (map fst sspec) with
-  | Some rows => all_comparable (probes ++ map rvals rows)
+  match rows_of tbl (map fst (sort_cols order_by sort_by hm)) with
+  | Some rows => rset_okb (map snd (sort_cols order_by sort_by hm)) rows probes
   | None => false
   end.
